@@ -44,8 +44,28 @@ def S():
 
 
 # ------------------------------------------------------------------------------------------
-def cell_grid(ctx):
-    """exhaustive tie grid at cell level: implementation vs regenerated formula vs proved specification, and complementarity"""
+def frac(x):
+    x = float(x)
+    return None if np.isnan(x) else (x if np.isinf(x) else Fraction(x))
+
+
+def brier_cell_oracle(members, obs, t, opn, fair):
+    """independent exact-rational oracle of one (case, threshold) cell: (i/m - y)^2 - [fair and m > 1] i(m-i)/(m^2(m-1)); NaN for m = 0 / NaN obs"""
+    rel = OPS[opn]
+    valid = [x for x in members if not np.isnan(x)]
+    m = len(valid)
+    if m == 0 or np.isnan(obs) or np.isnan(t):
+        return NAN
+    i = sum(1 for x in valid if rel(x, t))
+    y = 1 if rel(obs, t) else 0
+    r = (Fraction(i, m) - y) ** 2
+    if fair and m > 1:
+        r -= Fraction(i * (m - i), m * m * (m - 1))
+    return r
+
+
+def cell_grid(ctx, use_model=True):
+    """exhaustive tie grid at cell level: implementation vs exact oracle, vs regenerated formula, vs proved specification; complementarity"""
     P, _ = S()
     vals = [1.0, 2.0, 3.0, NAN]
     ens = []
@@ -74,20 +94,25 @@ def cell_grid(ctx):
                         results[(tuple(map(repr, e)), repr(ov), t, opn, fair)] = (e, ov, float(r.values[k, j]))
     n_spec = n_tie = 0
     for (ek, ok, t, opn, fair), (e, ov, impl) in results.items():
-        gen, spec, i, m = ctx.model("c13_brier_ens_case", enc_list([enc_nums(e), enc_num(ov), enc_num(t), enc_str(opn), enc_bool(fair)]))
-        gen, spec = core.dec_num(gen), core.dec_num(spec)
         case = {"members": e, "obs": ov, "threshold": t, "operator": opn, "fair_correction": fair}
         ctx.case(("cell", ek, ok, t, opn, fair), nontrivial=not np.isnan(impl))
+        orc = brier_cell_oracle(e, ov, t, opn, fair)
+        if not core.close(impl, orc):
+            ctx.violation("brier_score_for_ensemble differs from (i/m - y)^2 - [fair, m>1] i(m-i)/(m^2(m-1)) (exact oracle)", case, orc, impl)
+        comp = {"ge": "lt", "lt": "ge", "gt": "le", "le": "gt"}[opn]
+        other = results[(ek, ok, t, comp, fair)][2]
+        if not (core.close(impl, other) or (np.isnan(impl) and np.isnan(other))):
+            ctx.violation(f"complementary operators disagree: {opn} vs {comp}", case, impl, other)
+        if not use_model:
+            continue
+        gen, spec, i, m = ctx.model("c13_brier_ens_case", enc_list([enc_nums(e), enc_num(ov), enc_num(t), enc_str(opn), enc_bool(fair)]))
+        gen, spec = core.dec_num(gen), core.dec_num(spec)
         if not core.close(impl, spec):
             ctx.violation("brier_score_for_ensemble differs from (i/m - y)^2 - [fair, m>1] i(m-i)/(m^2(m-1))", dict(case, i=i, m=m), spec, impl)
             n_spec += 1
         if not core.close(impl, gen):
             ctx.tie_fail("per-case model (counts + gen_brier_ens_cell) vs implementation", case, impl, gen)
             n_tie += 1
-        comp = {"ge": "lt", "lt": "ge", "gt": "le", "le": "gt"}[opn]
-        other = results[(ek, ok, t, comp, fair)][2]
-        if not (core.close(impl, other) or (np.isnan(impl) and np.isnan(other))):
-            ctx.violation(f"complementary operators disagree: {opn} vs {comp}", case, impl, other)
     ctx.count("cell_grid_points", len(results))
     ctx.count("cell_grid_ties_member_eq_threshold", sum(1 for (ek, ok, t, *_), v in results.items() if t in v[0]))
     ctx.count("cell_grid_single_valid_member", sum(1 for k, v in results.items() if sum(1 for x in v[0] if not np.isnan(x)) == 1))
@@ -184,13 +209,66 @@ def desc_ens(c):
             "fair_correction": c["fair"], "reduce_dims": c["rd"], "preserve_dims": c["pd"], "threshold_dim": c["tdim"]}
 
 
-def full_ens(ctx):
+def ens_oracle_array(c):
+    """per-case (other dims..., threshold) scores from the exact oracle, as a DataArray"""
+    f, o = xr.broadcast(c["fcst"], c["obs"])
+    other = [d for d in f.dims if d != "ens"]
+    f = f.transpose(*other, "ens")
+    o = o.isel(ens=0, drop=True).transpose(*other)
+    fv = np.asarray(f.values, dtype=float).reshape(-1, f.sizes["ens"])
+    ov = np.asarray(o.values, dtype=float).reshape(-1)
+    out = np.array([[float(brier_cell_oracle(list(fv[k]), ov[k], t, c["opn"], c["fair"])) for t in c["ts"]] for k in range(len(ov))])
+    shape = [f.sizes[d] for d in other] + [len(c["ts"])]
+    coords = {d: f[d].values for d in other if d in f.coords}
+    coords["threshold"] = c["ts"]
+    return xr.DataArray(out.reshape(shape), dims=other + ["threshold"], coords=coords)
+
+
+def compare_with_oracle(ctx, what, oracle_pc, weights, result, desc):
+    """reduced implementation result vs NaN-skipping mean of weight * exact per-case oracle over the dims the result no longer has"""
+    x = oracle_pc if weights is None else oracle_pc * weights
+    red = [d for d in x.dims if d not in result.dims]
+    exp = x.mean(dim=red) if red else x
+    try:
+        exp = exp.transpose(*result.dims)
+        r2, exp = xr.align(result, exp, join="inner")      # same label order
+        ok = r2.shape == result.shape and bool(np.allclose(np.asarray(r2, dtype=float), np.asarray(exp, dtype=float), rtol=0, atol=1e-9, equal_nan=True))
+        result = r2
+    except ValueError:
+        ok = False
+    if not ok:
+        ctx.violation(what, desc, str(np.asarray(exp).tolist())[:200], str(np.asarray(result).tolist())[:200])
+    return ok
+
+
+def oracle_probes(ctx):
+    """deterministic oracle cases: non-unit weights with the fair correction; exactly two valid members of which one meets the relation"""
+    P, _ = S()
+    f = xr.DataArray([[1.0, 3.0], [2.0, 2.0], [0.0, NAN], [3.0, 1.0]], dims=["t", "ens"], coords={"t": [0, 1, 2, 3]})
+    o = xr.DataArray([2.0, 1.0, 3.0, 2.0], dims=["t"], coords={"t": [0, 1, 2, 3]})
+    w = xr.DataArray([2.0, 0.5, 3.0, 1.0], dims=["t"], coords={"t": [0, 1, 2, 3]})
+    for opn in OPS:
+        for fair in (True, False):
+            for weights in (None, w):
+                for pd in ("all", None):
+                    c = dict(fcst=f, obs=o, w=weights, ts=[1.0, 2.0, 3.0], scalar=False, opn=opn, fair=fair, rd=None, pd=pd, tdim="threshold", ens="ens")
+                    impl = call_ens(P, c)
+                    ctx.case(("oracle_probe", opn, fair, weights is not None, pd))
+                    if impl[0] != "ok":
+                        ctx.violation("brier_score_for_ensemble raises on a valid call", desc_ens(c), "values", impl[1])
+                        continue
+                    compare_with_oracle(ctx, "brier_score_for_ensemble differs from the weighted mean of (i/m - y)^2 - fair correction (exact oracle; "
+                                        "weights multiply the corrected score)", ens_oracle_array(c), weights, impl[1], desc_ens(c))
+    ctx.count("oracle_probes", 32)
+
+
+def full_ens(ctx, use_model=True):
     P, _ = S()
     rng = ctx.rng
     for i in range(ctx.n(220, 2500)):
         if not ctx.time_left():
             break
-        malformed = rng.random() < 0.2
+        malformed = rng.random() < 0.2 and use_model
         c = gen_ens_case(ctx, malformed)
         impl = call_ens(P, c)
         desc = desc_ens(c)
@@ -204,14 +282,18 @@ def full_ens(ctx):
             ctx.count("ens:weights")
         if i < 2:
             ctx.sample(desc)
-        m = model_ens(ctx, c, False)
-        ok, why = core.compare_result(impl, m)
-        if not ok:
-            ctx.tie_fail("brier_score_for_ensemble vs model: " + why, desc, str(impl[1])[:300], str(m)[:300])
-        ms = model_ens(ctx, c, True)
-        ok, why = core.compare_result(impl, ms)
-        if not ok:
-            ctx.violation("brier_score_for_ensemble differs from the proved specification: " + why, desc, str(ms)[:300], str(impl[1])[:300])
+        if impl[0] == "ok" and not c["bad"] and "z" not in c["obs"].dims:
+            compare_with_oracle(ctx, "brier_score_for_ensemble differs from the weighted NaN-skipping mean of the exact per-case oracle",
+                                ens_oracle_array(c), c["w"], impl[1], desc)
+        if use_model:
+            m = model_ens(ctx, c, False)
+            ok, why = core.compare_result(impl, m)
+            if not ok:
+                ctx.tie_fail("brier_score_for_ensemble vs model: " + why, desc, str(impl[1])[:300], str(m)[:300])
+            ms = model_ens(ctx, c, True)
+            ok, why = core.compare_result(impl, ms)
+            if not ok:
+                ctx.violation("brier_score_for_ensemble differs from the proved specification: " + why, desc, str(ms)[:300], str(impl[1])[:300])
         if impl[0] != "ok":
             continue
         # complementary operator on the implementation
@@ -226,7 +308,7 @@ def full_ens(ctx):
             if pc[0] == "ok":
                 check_mean_of_cases(ctx, "brier_score_for_ensemble", pc[1], c["w"], impl[1], desc)
         # custom name of the threshold dimension: same numbers under the other name
-        if rng.random() < 0.3:
+        if rng.random() < 0.3 and use_model:
             check_threshold_dim_name(ctx, P, c, desc)
 
 
@@ -255,21 +337,35 @@ def check_threshold_dim_name(ctx, P, c, desc):
     if ok:
         return
     d = dict(desc, threshold_dim=name)
-    # the recorded deviation: the observed event keeps its own dimension 'threshold', so the result is the outer product over
-    # (thr, threshold); its diagonal is the specified score
-    if impl[0] == "ok" and not core.is_err(m) and "threshold" in impl[1].dims and name in impl[1].dims:
-        diag = xr.concat([impl[1].isel({name: k, "threshold": k}, drop=True) for k in range(len(c["ts"]))], dim=name)
-        diag = diag.assign_coords({name: c["ts"]})
-        ok2, _ = core.compare_result(("ok", diag), m)
-        if ok2:
-            ctx.violation("threshold_dim other than 'threshold' yields an extra 'threshold' dimension (outer product of forecast and observed thresholds)",
-                          d, "dims " + str(core.dec_arr(m)[0]), "dims " + str(list(impl[1].dims)), finding_key="brier-ens-threshold-dim-name")
-            return
     ctx.violation("brier_score_for_ensemble with a custom threshold_dim differs from the specification: " + why, d, str(m)[:300], str(impl[1])[:300])
 
 
 # ------------------------------------------------------------------------------------------
-def full_brier(ctx):
+def brier_boundaries(ctx):
+    """range / binary checks of brier_score at their boundaries, incl. marginally negative forecasts that a single-reduction test would absorb"""
+    P, _ = S()
+    o = xr.DataArray([0.0, 1.0, 1.0], dims=["x"])
+    probes = [(0.0, False), (1.0, False), (5e-324, False), (1.0 - 2 ** -53, False), (-1e-17, True), (-1e-300, True), (0.3 - 3 * 0.1, True), (-5e-324, True),
+              (1.0 + 2 ** -52, True), (1.0000001, True), (-1e-9, True), (float("inf"), True), (-float("inf"), True)]
+    for v, must_raise in probes:
+        for pos in (0, 2):
+            vals = [0.25, 0.5, 0.75]
+            vals[pos] = v
+            got = core.call_impl(P.brier_score, xr.DataArray(vals, dims=["x"]), o)
+            ctx.case(("brier_boundary", repr(v), pos))
+            if (got[0] == "err") != must_raise or (must_raise and got[1] != "err:ValueError"):
+                ctx.violation("brier_score range check at its boundary (forecasts must lie in [0,1])", {"fcst": vals, "obs": [0, 1, 1]},
+                              "err:ValueError" if must_raise else "a value", str(got[1])[:80])
+    for v, must_raise in ((0.0, False), (1.0, False), (NAN, False), (0.5, True), (1e-300, True), (-1.0, True), (1.0 + 2 ** -52, True)):
+        got = core.call_impl(P.brier_score, xr.DataArray([0.25, 0.5, 0.75], dims=["x"]), xr.DataArray([0.0, v, 1.0], dims=["x"]))
+        ctx.case(("brier_boundary_obs", repr(v)))
+        if (got[0] == "err") != must_raise or (must_raise and got[1] != "err:ValueError"):
+            ctx.violation("brier_score binary check of the observations", {"fcst": [0.25, 0.5, 0.75], "obs": [0.0, v, 1.0]},
+                          "err:ValueError" if must_raise else "a value", str(got[1])[:80])
+    ctx.count("brier_boundary_probes", 33)
+
+
+def full_brier(ctx, use_model=True):
     P, C = S()
     rng = ctx.rng
     pgrid = [Fraction(k, 8) for k in range(0, 9)]
@@ -306,8 +402,9 @@ def full_brier(ctx):
             kw["weights"] = w
         impl = core.call_impl(P.brier_score, fcst, obs, check_args=chk, **kw)
         margs = [enc_arr(fcst), enc_arr(obs), enc_dimspec(rd), enc_dimspec(pd), enc_opt(w, enc_arr), enc_bool(chk)]
-        m = ctx.model("c13_brier_score", enc_list(margs + [enc_bool(False)]))
-        msp = ctx.model("c13_brier_score", enc_list(margs + [enc_bool(True)]))
+        if use_model:
+            m = ctx.model("c13_brier_score", enc_list(margs + [enc_bool(False)]))
+            msp = ctx.model("c13_brier_score", enc_list(margs + [enc_bool(True)]))
         desc = {"fn": "brier_score", "fcst": gens.da_repr(fcst), "obs": gens.da_repr(obs), "weights": gens.da_repr(w), "reduce_dims": rd,
                 "preserve_dims": pd, "check_args": chk}
         nontrivial = impl[0] == "ok" and bool(np.isfinite(np.asarray(impl[1])).any())
@@ -317,12 +414,18 @@ def full_brier(ctx):
             ctx.count("brier:invalid=" + bad + (":checked" if chk else ":unchecked"))
         if i < 2:
             ctx.sample(desc)
-        ok, why = core.compare_result(impl, m)
-        if not ok:
-            ctx.tie_fail("brier_score vs model: " + why, desc, str(impl[1])[:300], str(m)[:300])
-        ok, why = core.compare_result(impl, msp)
-        if not ok:
-            ctx.violation("brier_score differs from the (weighted, NaN-skipping) mean squared difference: " + why, desc, str(msp)[:300], str(impl[1])[:300])
+        if use_model:
+            ok, why = core.compare_result(impl, m)
+            if not ok:
+                ctx.tie_fail("brier_score vs model: " + why, desc, str(impl[1])[:300], str(m)[:300])
+            ok, why = core.compare_result(impl, msp)
+            if not ok:
+                ctx.violation("brier_score differs from the (weighted, NaN-skipping) mean squared difference: " + why, desc, str(msp)[:300], str(impl[1])[:300])
+        if impl[0] == "ok" and bad in (None, "allnan"):
+            fb, ob = xr.broadcast(fcst, obs)
+            sq = xr.apply_ufunc(np.vectorize(lambda a, b: float("nan") if (np.isnan(a) or np.isnan(b)) else float((Fraction(float(a)) - Fraction(float(b))) ** 2)),
+                                fb, ob)
+            compare_with_oracle(ctx, "brier_score differs from the weighted NaN-skipping mean of (f - o)^2 (exact oracle)", sq, w, impl[1], desc)
         # property: rejects exactly the invalid inputs (when checking), otherwise equals mse
         invalid = bad in ("fcst", "obs")
         mse = core.call_impl(C.mse, fcst, obs, **kw)
@@ -344,7 +447,38 @@ def poke(rng, da, v):
     return da
 
 
+def corpus(ctx):
+    """deterministic repro of the defect repaired in /repo by 528852a (known_findings.d/C13.json, status fixed)"""
+    P, _ = S()
+    f = xr.DataArray([[1.0, 2, 3], [2, 3, 4]], dims=["t", "ens"])
+    o = xr.DataArray([2.0, 3.0], dims=["t"])
+    ref = core.call_impl(P.brier_score_for_ensemble, f, o, "ens", [2.0, 3.0], preserve_dims="all")
+    got = core.call_impl(P.brier_score_for_ensemble, f, o, "ens", [2.0, 3.0], threshold_dim="thr", preserve_dims="all")
+    ctx.case(("corpus", "brier-ens-threshold-dim-name"))
+    ok = ref[0] == "ok" and got[0] == "ok" and set(got[1].dims) == {"t", "thr"} and \
+        np.allclose(got[1].transpose("t", "thr").values, ref[1].transpose("t", "threshold").values, equal_nan=True)
+    if not ok:
+        ctx.violation("brier_score_for_ensemble(threshold_dim='thr') must return the same scores under the requested dimension name (regression of 528852a)",
+                      {"fcst": [[1, 2, 3], [2, 3, 4]], "obs": [2, 3], "event_thresholds": [2.0, 3.0], "threshold_dim": "thr"},
+                      "dims ('t','thr')", "dims " + str(getattr(got[1], "dims", got[1])))
+    ctx.count("corpus_cases", 1)
+
+
 def run(ctx):
+    corpus(ctx)
+    brier_boundaries(ctx)
+    oracle_probes(ctx)
     cell_grid(ctx)
     full_ens(ctx)
     full_brier(ctx)
+
+
+def run_without_model(ctx):
+    """used when a site no longer translates / the extracted model does not build: the same specification predicates, evaluated
+    with the independent exact-rational oracle and relations between public calls only"""
+    corpus(ctx)
+    brier_boundaries(ctx)
+    oracle_probes(ctx)
+    cell_grid(ctx, use_model=False)
+    full_ens(ctx, use_model=False)
+    full_brier(ctx, use_model=False)
